@@ -32,8 +32,9 @@
 (* value n / 65535.                                                                            *)
 (*                                                                                           *)
 (* Outside the domain: the four HSL operators with a component-alpha mask (Render / PDF      *)
-(* define no such equation; pixman makes them no-ops), sRGB and floating point formats,      *)
-(* dithering.                                                                                *)
+(* define no such equation; pixman makes them no-ops), sRGB and floating point formats.      *)
+(* Ordered dithering of the destination: see CombineTrace (the one-step band of the real     *)
+(* value is accepted as an alternative).                                                     *)
 EXTENDS Formats, RealIv
 
 MulUn8(a, b) == LET t == a * b + 128 IN (t + (t \div 256)) \div 256
